@@ -1,9 +1,10 @@
+import os
 subs=[("idle","stepIdle",True),("begin","stepBegin",False),("commit","stepCommit",False),("abort","stepAbort",False),("after","stepAfter",True),("use","stepUse",False),("sess","stepSess",False),("close","stepClose",False),("exp","stepExp",False)]
 pcname={"idle":".idle","after":".after"}
 head='''/-
   Lungo.Proofs.ConcOwn3 — the ownership invariant (Oinv), per sub-machine (generated mechanically).
 -/
-import Lungo.Proofs.ConcOwn2
+import Lungo.Proofs.ConcOwnDefs
 namespace Lungo.Conc
 '''
 def thm(field, name, fn, haspc, hyps, goal, body):
@@ -53,20 +54,24 @@ for name,fn,haspc in subs:
         try simp only [hown] at gA
         try goal_simp
         grind
-    · have := gB b; have := m5 b (s.loc b).sid; have := m5 a (s.loc b).sid
+    · have hgBb := gB b; have := m5 b (s.loc b).sid; have := m5 a (s.loc b).sid
       clear gA gB gC m5 b2
       by_cases hba : b = a
       · subst hba; (try goal_simp); grind
       · have hab : ¬ a = b := fun h => hba h.symm
         try simp only [State.put, State.putS, State.finish, State.write, upd_apply, if_neg hba, if_neg hab]
-        (try goal_simp); grind
-    · have := gC b; have := b2 b
+        first
+        | exact hgBb
+        | ((try goal_simp); grind)
+    · have hgCb := gC b; have := b2 b
       clear gA gB gC m5 b2
       by_cases hba : b = a
       · subst hba; (try goal_simp); grind
       · have hab : ¬ a = b := fun h => hba h.symm
         try simp only [State.put, State.putS, State.finish, State.write, upd_apply, if_neg hba, if_neg hab]
-        (try goal_simp); grind)'''
+        first
+        | exact hgCb
+        | ((try goal_simp); grind))'''
     out+=thm("oinv",name,fn,haspc,"(inv1 : Inv1 s) (lw : Lwf s) (bnd : Bnd s) (sv : Sinv s) (g : Oinv s)","Oinv s'",body)
 out+="\nend Lungo.Conc\n"
-open('/root/wt/a4/lean/Lungo/Proofs/ConcOwn3.lean','w').write(out)
+open(os.path.join(os.path.dirname(os.path.abspath(__file__)),'..','Lungo','Proofs')+'/ConcOwn3.lean','w').write(out)
